@@ -612,9 +612,9 @@ class Server(SocketInterface):
         max_board_num = 101 if self.board_settings is None else len(
             self.board_settings) + 1
 
-        with open(self.output_file_path, 'w') as fw:
-            game_log_writer = JsonLogWriter(fw)
-            game_log_writer.open()
+        # JsonLogWriter closes the log on exit, also when the session is aborted.
+        with open(self.output_file_path, 'w') as fw, \
+                JsonLogWriter(fw) as game_log_writer:
             for board_number in range(1, max_board_num):
                 cards, vul, dealer, board_id, dda = None, None, None, None, None
                 if self.board_settings is not None:
@@ -686,9 +686,8 @@ class Server(SocketInterface):
                     self.sent_message_queues[player].put(
                         self.Message.NEXT_BOARD)
 
-            game_log_writer.close()
-            for player in Player:
-                self.sent_message_queues[player].put(self.Message.END_SESSION)
+        for player in Player:
+            self.sent_message_queues[player].put(self.Message.END_SESSION)
 
         for thread in threads:
             thread.join()
